@@ -103,8 +103,61 @@ def fresh(name):
     return g
 
 
+GATE = {'hook': None}
+
+
 def extractor(kind):
-    return {'pydantic': PydanticSchemaExtractor, 'docstring': DocstringSchemaExtractor, 'base': BaseSchemaExtractor}[kind]()
+    ex = {'pydantic': PydanticSchemaExtractor, 'docstring': DocstringSchemaExtractor, 'base': BaseSchemaExtractor}[kind]()
+    # every extract_* call passes the harness' gate first (a no-op unless a case installs a hook): this is how a second generation
+    # on the same spec object is made to run while the first one is half-way through its methods
+    for name in dir(ex):
+        if name.startswith('extract') and callable(getattr(ex, name)):
+            def gated(*a, _f=getattr(ex, name), **k):
+                h = GATE['hook']
+                if h is not None:
+                    h()
+                return _f(*a, **k)
+            setattr(ex, name, gated)
+    return ex
+
+
+def overlapped(c, b, first_doc):
+    """two generations on ONE spec object that overlap in time (two requests for the document on a threaded server): while the
+    first is between two of its methods, another thread generates the whole document; both must equal the document of an
+    undisturbed generation"""
+    import threading
+    state = {'calls': 0, 'main': threading.get_ident(), 'other': None, 'done': False}
+
+    def hook():
+        if threading.get_ident() != state['main'] or state['done']:
+            return
+        state['calls'] += 1
+        if state['calls'] == 4:              # after the first method's extractions, before the later ones
+            state['done'] = True
+
+            def run():
+                try:
+                    state['other'] = b.generate(c)
+                except Exception as e:  # noqa
+                    state['other'] = {'raised': core.exc_name(e)}
+            t = threading.Thread(target=run)
+            t.start()
+            t.join()
+    GATE['hook'] = hook
+    try:
+        mine = b.generate(c)
+    finally:
+        GATE['hook'] = None
+    if not state['done']:
+        return None                          # too few extractor calls for an overlap
+    bad = []
+    if mine != first_doc:
+        bad.append('the interrupted generation')
+    if state['other'] != first_doc:
+        bad.append('the generation that ran in between')
+    if dangling(mine) or (isinstance(state['other'], dict) and 'raised' not in state['other'] and dangling(state['other'])):
+        bad.append('dangling $ref')
+    return bad
 
 
 class Built:
@@ -455,6 +508,13 @@ def run_impl(c):
             out.setdefault('_first', doc)
     except Exception as e:  # noqa
         out['raised'] = core.exc_name(e)
+    if 'raised' not in out and '_first' in out and len(c['methods']) >= 2:
+        try:
+            ov = overlapped(c, b, out['_first'])
+        except Exception as e:  # noqa
+            ov = [f'raised {core.exc_name(e)}']
+        if ov:
+            out['problems'].append({'k': 'overlapping-generations', 'what': '; '.join(ov), 'generation': 0})
     out.pop('_first', None)
     if c.get('served') is not None and c['kind'] == 'openapi' and 'raised' not in out:
         try:
@@ -608,6 +668,9 @@ def oracle(prop, c, out):
             fail('dangling-ref', f'dangling $ref: {p["refs"][:3]}', p)
         elif p['k'] == 'served-differs':
             fail('served-differs', f'the document served by the integration differs from the generated one: {p["what"]}', p)
+        elif p['k'] == 'overlapping-generations':
+            fail('overlapping-generations-differ', f'two generations on one spec object that overlap in time do not both yield the document of an '
+                                                   f'undisturbed generation: {p["what"]}', p)
         else:
             fail('not-deterministic', 'repeating the generation yields a different document', p)
     if out['mutated']:
